@@ -16,8 +16,8 @@ def g(fam, **kw):
     return ['%s:%s:%d' % (fam, name, n) for name, n in kw.items()]
 
 
-V1_QUICK = g('stream', v1good=150, v1corrupt=120, v1struct=120, v1mutate=200, v1trunc=10, v1len=25, v1max=30, v1adj=96, v1lenient=1, v1junk=80, v1cr=60, bytes=40)
-V1_THOROUGH = g('stream', v1good=4000, v1corrupt=4000, v1struct=3000, v1mutate=8000, v1trunc=300, v1len=400, v1max=600, v1adj=6144, v1lenient=1, v1junk=2500, v1cr=1500, bytes=1000)
+V1_QUICK = g('stream', v1good=150, v1corrupt=120, v1struct=120, v1mutate=200, v1trunc=10, v1len=25, v1max=30, v1adj=96, v1lenient=1, v1words=170, v1junk=80, v1cr=60, bytes=40)
+V1_THOROUGH = g('stream', v1good=4000, v1corrupt=4000, v1struct=3000, v1mutate=8000, v1trunc=300, v1len=400, v1max=600, v1adj=6144, v1lenient=1, v1words=170, v1junk=2500, v1cr=1500, bytes=1000)
 V2_QUICK = g('stream', v2good=120, v2corrupt=150, v2mutate=250, bparse=150, v2ctrl=700, v2len=330, v2sig=60, v2sigmulti=150, v2halves=48, mixed=80, bytes=40, huge=4)
 V2_THOROUGH = g('stream', v2good=3000, v2corrupt=4000, v2mutate=8000, bparse=4000, v2ctrl=65536, v2len=2500, v2sig=3060, v2sigmulti=800, v2halves=192, mixed=2000, bytes=1000, huge=60)
 IPTEXT_QUICK = g('iptext', iprand=400)
@@ -52,6 +52,7 @@ MC_FORMAT = model('MC_Format', 'MC_Format_quick.cfg', 'MC_Format_thorough.cfg', 
 MC_MIXED = model('MC_Mixed', 'MC_Mixed_quick.cfg', 'MC_Mixed_thorough.cfg', need=['autotag'], cap=dict(quick=400, thorough=6000))
 MC_V1_LIVE = model('MC_StreamV1', 'MC_StreamV1_live.cfg', 'MC_StreamV1_live.cfg')
 MC_IPTEXT = model('MC_IpText', 'MC_IpText_quick.cfg', 'MC_IpText_thorough.cfg', need=['ok'], cap=dict(quick=5000, thorough=200000), tt=3000)
+MC_PIPE = model('MC_Pipe', 'MC_Pipe.cfg', 'MC_Pipe.cfg', need=['left'], cap=dict(quick=300, thorough=900))
 MC_CONVERT = model('MC_Convert', 'MC_Convert.cfg', 'MC_Convert.cfg', need=['op'])
 
 TLV_CURSOR_APALACHE = [
@@ -92,14 +93,14 @@ PROPS = {
     'C04': dict(
         gens=dict(quick=g('stream', v1good=200, v1struct=60, v1len=40, v1max=20, v2good=150, v2len=40, mixed=80, bigtrail=6, huge=6, pipe=60),
                   thorough=g('stream', v1good=5000, v1struct=2000, v1len=600, v1max=400, v2good=4000, v2len=2000, mixed=2500, bigtrail=60, huge=80, pipe=2000)),
-        models=[MC_V1, MC_V2, MC_MIXED],
+        models=[MC_V1, MC_V2, MC_MIXED, MC_PIPE],
         rule='stream sessions whose header is followed by trailers (application bytes, another header, CR/LF/NUL, a '
              'digit, a TLV); non-trivial = an event after the first accept in the session, or the re-parse of the '
              'reported header alone; distinct = distinct inputs',
     ),
     'C05': dict(
-        gens=dict(quick=g('stream', v1good=250, v1len=40, v1max=30, v2good=200, v2len=40, mixed=80) + g('tlv', tlvtrunc=80, tlvrand=40),
-                  thorough=g('stream', v1good=6000, v1len=600, v1max=600, v2good=5000, v2len=2000, mixed=2500) + g('tlv', tlvtrunc=3000, tlvrand=2000)),
+        gens=dict(quick=g('stream', v1good=250, v1len=40, v1max=30, v1words=170, v2good=200, v2len=40, mixed=80) + g('tlv', tlvtrunc=80, tlvrand=40),
+                  thorough=g('stream', v1good=6000, v1len=600, v1max=600, v1words=170, v2good=5000, v2len=2000, mixed=2500) + g('tlv', tlvtrunc=3000, tlvrand=2000)),
         models=[MC_V1, MC_V2, MC_MIXED],
         rule='stream sessions delivered mostly one byte per read, so every proper prefix is a state; non-trivial = the '
              'first accept of a session that visited at least one proper prefix of that header; distinct = distinct headers+splits',
@@ -107,7 +108,7 @@ PROPS = {
     'C06': dict(
         gens=dict(quick=g('stream', mixed=200, v1good=80, v1len=40, v1struct=40, v1mutate=100, v2mutate=150, v2good=80, v2corrupt=60, v1junk=60, bytes=60, huge=4, pipe=30),
                   thorough=g('stream', mixed=6000, v1good=2000, v1len=600, v1struct=1500, v1mutate=4000, v2mutate=4000, v2good=2000, v2corrupt=2000, v1junk=2000, bytes=2000, huge=40, pipe=1000)),
-        models=[MC_MIXED, MC_V1, MC_V2],
+        models=[MC_MIXED, MC_V1, MC_V2, MC_PIPE],
         rule='every stream event (the three verdicts on the same buffer); non-trivial = non-empty buffer',
     ),
     'C07': dict(
@@ -169,7 +170,7 @@ PROPS = {
         rule='every accepted v2 header in the stream traces, borrowed and owned views; distinct = distinct inputs',
     ),
     'C15': dict(
-        gens=dict(quick=g('stream', v1good=300, v1struct=60, v1adj=96, v1max=20), thorough=g('stream', v1good=8000, v1struct=2000, v1adj=6144, v1max=400)),
+        gens=dict(quick=g('stream', v1good=300, v1struct=60, v1adj=96, v1max=20, v1words=170), thorough=g('stream', v1good=8000, v1struct=2000, v1adj=6144, v1max=400, v1words=170)),
         models=[MC_V1],
         rule='every accepted v1 header (bytes and text entry points); distinct = distinct inputs',
     ),
